@@ -9,7 +9,7 @@ from ..model import AnalysisError, Cls, Func, Program, walk_own
 from ..orderings import NotAFormula, eval_order, weak_orderings
 from ..report import Report
 from ..resolve import const_value, dotted
-from ..util import assigned_value, calls_in, returns_of, src
+from ..util import iter_stores, assigned_value, calls_in, returns_of, src
 from .c01 import feeder_analysis, r1_raised_before_start
 from .poolfam import PoolFacts, queue_call
 
@@ -24,6 +24,7 @@ def run(prog: Program, rep: Report):
     from .c01 import counter_reset_per_call, feeder_early_exits
     counter_reset_per_call(prog, rep, pf, "C02.R6")
     feeder_early_exits(prog, rep, pf, "C02.R7")
+    r8_context_covers_iteration(prog, rep, pf)
 
 
 # ---------------------------------------------------------------------------------------------- R1
@@ -198,6 +199,7 @@ def r3_pause_resume(prog, rep: Report, pf: PoolFacts):
             # pause arrives eventually, the reorder buffer then empties completely (chunks are sent in order, so no gap stays open),
             # and nothing else can change the state any more.  So the guards between the pause test and the set() are evaluated at
             # len(buffer) = 0, event not set, for the bounds 1, 2, 3, 10 and 1000 (finite: the feeder is never paused under an infinite bound); sub-expressions over anything else are free atoms.
+            bounds = {dotted(x) for x in ast.walk(iff.test) if isinstance(x, ast.Attribute) and dotted(x) and dotted(x)[0] == f.self_name}
             guard_ok = True
             guard_why = ""
             for c in resume:
@@ -218,6 +220,30 @@ def r3_pause_resume(prog, rep: Report, pf: PoolFacts):
                        f"no `{'.'.join(d)}.set()` on the branch where the pause condition `{src(iff.test)}` is false"),
                       scenario="results_queue_maxsize=1: the buffer fills, the feeder is paused; after the buffer drained nobody "
                                "resumes it, the remaining input is never sent and imap never returns", line=iff.lineno)
+            # the bound the constructor stores: for every accepted value of its parameter (1, 2, 3, 10) the stored bound must leave
+            # an empty buffer un-paused
+            bpaths = sorted(x for x in bounds if x and len(x) == 2)
+            init = prog.resolve(pf.pool, "__init__")
+            if bpaths and init is not None:
+                fld = bpaths[0][1]
+                for t_, v_, st_ in iter_stores(init.node):
+                    if dotted(t_) == (init.self_name, fld) and v_ is not None:
+                        params = [x.id for x in ast.walk(v_) if isinstance(x, ast.Name) and x.id in init.params]
+                        bad_b = None
+                        for b_ in (1, 2, 3, 10):
+                            stored = _eval_ctor_bound(v_, {p_: b_ for p_ in params})
+                            if stored is None:
+                                continue
+                            probe = _drained_counterexample([(iff.test, False)], d, bounds, fixed_bound=stored)
+                            if probe:
+                                bad_b = (b_, stored)
+                                break
+                        rep.check("C02.R3", init, f"bound-stored:{fld}", bad_b is None,
+                                  f"self.{fld} = `{src(v_)}` keeps an empty buffer un-paused for every parameter value",
+                                  f"with the parameter equal to {bad_b[0] if bad_b else ''} the constructor stores the bound "
+                                  f"{bad_b[1] if bad_b else ''} (`{src(v_)}`): the pause test `{src(iff.test)}` holds for an empty buffer",
+                                  scenario="results_queue_maxsize=1: the feeder is paused before anything was buffered and never resumed",
+                                  line=st_.lineno)
             # the pause test over (len(buffer), bound)
             t = iff.test
 
@@ -245,7 +271,46 @@ def r3_pause_resume(prog, rep: Report, pf: PoolFacts):
         rep.error("C02.R3: no pause (Event.clear() of an event the feeder waits on) found in the consumers (floor 1)")
 
 
-def _drained_counterexample(conds, ev_path, bounds) -> str:
+def _eval_ctor_bound(e, env):
+    """value of the constructor's bound expression for given parameter values (None: not evaluable)"""
+    import math
+    try:
+        if isinstance(e, ast.Constant):
+            return e.value
+        if isinstance(e, ast.Name):
+            return env.get(e.id)
+        if isinstance(e, ast.Attribute) and src(e) in ("math.inf",):
+            return math.inf
+        if isinstance(e, ast.IfExp):
+            t = e.test
+            if isinstance(t, ast.Compare) and len(t.ops) == 1 and isinstance(t.ops[0], (ast.Is, ast.IsNot)) \
+                    and isinstance(t.comparators[0], ast.Constant) and t.comparators[0].value is None:
+                lhs = _eval_ctor_bound(t.left, env)
+                is_none = lhs is None and not isinstance(t.left, ast.Name)
+                is_none = (env.get(t.left.id) is None) if isinstance(t.left, ast.Name) else is_none
+                cond = is_none if isinstance(t.ops[0], ast.Is) else not is_none
+                return _eval_ctor_bound(e.body if cond else e.orelse, env)
+            return None
+        if isinstance(e, ast.BinOp):
+            l, r = _eval_ctor_bound(e.left, env), _eval_ctor_bound(e.right, env)
+            if l is None or r is None:
+                return None
+            if isinstance(e.op, ast.Add): return l + r
+            if isinstance(e.op, ast.Sub): return l - r
+            if isinstance(e.op, ast.Mult): return l * r
+            if isinstance(e.op, ast.FloorDiv): return l // r
+            if isinstance(e.op, ast.Div): return l / r
+        if isinstance(e, ast.Call) and src(e.func) in ("int", "max", "min") and e.args:
+            vals = [_eval_ctor_bound(a, env) for a in e.args]
+            if None in vals:
+                return None
+            return {"int": lambda v: int(v[0]), "max": max, "min": min}[src(e.func)](vals)
+    except Exception:
+        return None
+    return None
+
+
+def _drained_counterexample(conds, ev_path, bounds, fixed_bound=None) -> str:
     """conds: [(test, wanted truth value)] guarding the resume.  Returns '' when all hold at len(buffer)=0 / event clear for every
     sampled bound and every valuation of the free atoms, else a description of the falsifying point."""
     from itertools import product
@@ -311,7 +376,7 @@ def _drained_counterexample(conds, ev_path, bounds) -> str:
             return free[k]
 
     # a finite bound: with an infinite one the pause test never fires and the paused state is unreachable
-    for b in (1, 2, 3, 10, 1000):
+    for b in ((fixed_bound,) if fixed_bound is not None else (1, 2, 3, 10, 1000)):
         names: Dict[str, Optional[bool]] = {}
         # discover free atoms
         for _ in range(8):
@@ -428,3 +493,48 @@ def r5_retest(prog, rep: Report, pf: PoolFacts):
             ok, why = False, "`while True` drain loop without a queue.Empty exit"
     rep.check("C02.R5", g, "drain-bounded", ok, f"{len(drains)} drain loop(s): non-blocking, ended by qsize()/queue.Empty", why,
               scenario="the helper never returns to its caller while workers keep producing: the completion test is never re-evaluated")
+
+
+# ---------------------------------------------------------------------------------------------- R8
+def r8_context_covers_iteration(prog, rep: Report, pf: PoolFacts):
+    """a `with <helper thread>` around a delegated imap only helps while the with-block is active: the delegate's generator has to
+    be iterated (yield from / for ... yield) inside the block, not returned out of it"""
+    from ..resolve import Scope
+    rep.rule("C02.R8", "helper threads run for the whole call: in every pool method that wraps a delegated imap/imap_unordered in a "
+             "`with <thread>(...)` block, the delegate's generator is iterated inside the block (yield from, or a loop that yields); a "
+             "`return <generator>` leaves the block - and stops the thread - before the first element is requested", floor=2)
+    pools = [pf.pool] + [c for c in prog.classes.values() if c is not pf.pool and pf.pool in (c.mro or []) and not c.is_external]
+    n = 0
+    for c in pools:
+        for name, f in sorted(c.methods.items()):
+            if f.self_name is None:
+                continue
+            withs = [w for w in ast.walk(f.node) if isinstance(w, ast.With)]
+            for w in withs:
+                # delegated generator calls inside the block
+                sc = Scope(prog, f, c)
+                gens = []
+                for call in [x for st in w.body for x in ast.walk(st) if isinstance(x, ast.Call)]:
+                    tgt = sc.resolve_call(call)
+                    if isinstance(tgt, Func) and tgt.is_generator:
+                        gens.append(call)
+                if not gens:
+                    continue
+                n += 1
+                rep.fn(f)
+                escaped = [g for g in gens if isinstance(getattr(g, "_parent", None), ast.Return)]
+                consumed = [g for g in gens if isinstance(getattr(g, "_parent", None), (ast.YieldFrom, ast.For))
+                            or (isinstance(getattr(g, "_parent", None), ast.Call) and src(g._parent.func) in ("list", "tuple", "sorted"))]
+                role = f"context-covers:{c.name}.{name}"
+                if escaped:
+                    rep.viol("C02.R8", f, role, f"`return {src(escaped[0])}` hands the delegate's generator out of the `with "
+                             f"{src(w.items[0].context_expr)[:50]}` block: the block is left (the helper thread stopped) before any element is "
+                             "produced",
+                             scenario="FactoryFunctorPool with a finite max_chunks_per_worker: workers retire, nobody replaces them, the "
+                                      "remaining chunks are never processed and the consumer polls forever", line=escaped[0].lineno)
+                elif len(consumed) == len(gens):
+                    rep.ok("C02.R8", f, role, f"{len(gens)} delegated generator(s) iterated inside the with-block")
+                else:
+                    rep.unrec("C02.R8", f, role, "a delegated generator inside the with-block is neither iterated there nor returned")
+    if n == 0:
+        rep.error("C02.R8: no pool method wraps a delegated generator in a with-block (floor 2)")
